@@ -56,7 +56,33 @@ def maxNext (p : BoParams) : Nat :=
   | .expo i _ maxInt rand _ => max i maxInt + max i maxInt * rand / 1000 + 1
   | .const i => i
 
+/-- `GetEmpty` (backoff.go:14-16) -/
+def isEmpty (c : BoCfg) : Bool := c.kind == 0
+
+/-- `BackoffKind.Validate` (backoff.go:32-41): the three enum values are valid -/
+def kindValid (c : BoCfg) : Bool := c.kind ≤ 2
+
+/-- `(*Backoff).Validate(allowEmpty)` (backoff.go:44-52): does it return nil? -/
+def validate (c : BoCfg) (allowEmpty : Bool) : Bool := (allowEmpty || !isEmpty c) && kindValid c
+
+/-- how often a routine that fails `fails` times and then succeeds is run under `routine.WithRetry(conf)`
+(options.go:60-69) when the backoff never gives up: once per failure and once more; with a nil configuration no
+retry is configured and it runs once -/
+def runsUnder (present : Bool) (fails : Nat) : Nat := if present then fails + 1 else 1
+
 /-! ## theorems -/
+
+/-- strict validation accepts exactly EXPONENTIAL and CONSTANT, lenient validation also the empty configuration -/
+theorem validate_spec (c : BoCfg) :
+    (validate c false = true ↔ (c.kind = 1 ∨ c.kind = 2)) ∧ (validate c true = true ↔ c.kind ≤ 2) := by
+  simp only [validate, isEmpty, kindValid, Bool.false_or, Bool.true_or, Bool.true_and, Bool.and_eq_true,
+    Bool.not_eq_true', beq_eq_false_iff_ne, decide_eq_true_eq]
+  constructor
+  · constructor
+    · intro h; omega
+    · intro h; omega
+  · trivial
+
 
 /-- **retry for ever**: without `max_elapsed_time` the constructed backoff never returns Stop, however long the
 routine has been failing -/
@@ -89,6 +115,8 @@ inductive Obs where
   | conf (c : BoCfg)
   | params (p : BoParams)
   | stop (elapsed : Nat) (b : Bool)
+  | valid (empty strict lenient : Bool)
+  | runs (present : Bool) (fails runs : Nat)
 deriving DecidableEq, Repr
 
 structure St where
@@ -111,6 +139,11 @@ def step (s : St) : Obs → Option St
          else (if stops (construct c) elapsed 0 then none else some s))
       else none
     | none => none
+  | .valid e v0 v1 =>
+    match s.cfg with
+    | some c => if e = isEmpty c ∧ v0 = validate c false ∧ v1 = validate c true then some s else none
+    | none => none
+  | .runs present fails runs => if runs = runsUnder present fails then some s else none
 
 def model : OLTS St Obs Obs where
   init := {}
@@ -125,6 +158,8 @@ def pCfg : List String → Option BoCfg
            rand := (← r.toNat?), maxEl := (← e.toNat?), interval := (← c.toNat?) }
   | _ => none
 
+def pB (b : String) : Option Bool := if b == "1" then some true else if b == "0" then some false else none
+
 def Obs.parse : List String → Option Obs
   | "boconf" :: rest => (pCfg rest).map .conf
   | ["boparams", "expo", i, m, x, r, e] => do
@@ -132,10 +167,12 @@ def Obs.parse : List String → Option Obs
   | ["boparams", "const", i] => do pure (.params (.const (← i.toNat?)))
   | ["bostop", t, b] => do
     pure (.stop (← t.toNat?) (← (if b == "1" then some true else if b == "0" then some false else none)))
+  | ["bovalid", e, v0, v1] => do pure (.valid (← pB e) (← pB v0) (← pB v1))
+  | ["boruns", p, f, r] => do pure (.runs (← pB p) (← f.toNat?) (← r.toNat?))
   | _ => none
 
 /-- **C14, backoff clause**: a backoff constructed from a configuration without `max_elapsed_time` has
-`MaxElapsedTime = 0` and never answers Stop; a configured limit is taken over exactly -/
+`MaxElapsedTime = 0` and never answers Stop; a configured limit is taken over exactly; validation and `WithRetry` behave as documented -/
 def monC14bo : ObsMonitor Obs (Option BoCfg) where
   init := none
   step := fun ms o =>
@@ -150,6 +187,10 @@ def monC14bo : ObsMonitor Obs (Option BoCfg) where
       (match ms with
        | some c => if b && c.maxEl == 0 then none else some ms
        | none => some ms)
+    -- an empty configuration does not pass strict validation; what passes strict validation passes the lenient one
+    | .valid e v0 v1 => if (e && v0) || (v0 && !v1) then none else some ms
+    -- with a retry configuration a failing routine is run again until it succeeds; without one it runs once
+    | .runs present fails runs => if (present && runs != fails + 1) || (!present && runs != 1) then none else some ms
 
 /-- every trace of the model satisfies the backoff clause -/
 theorem C14bo_obs (es : List Obs) (s : St) (hr : model.run model.init es = some s) :
@@ -204,7 +245,34 @@ theorem C14bo_obs (es : List Obs) (s : St) (hr : model.run model.init es = some 
                 rw [never_stops c h0] at hst; cases hst
               simp [monC14bo, hne]
             · cases hs
-        · cases hs)
+        · cases hs
+    | valid e v0 v1 =>
+      simp only [model, step] at hs
+      cases hc : s.cfg with
+      | none => simp [hc] at hs
+      | some c =>
+        simp only [hc] at hs
+        split at hs
+        · rename_i hg
+          simp only [Option.some.injEq] at hs; subst hs
+          obtain ⟨h1, h2, h3⟩ := hg
+          subst h1; subst h2; subst h3
+          refine ⟨some c, ?_, by simp [hc]⟩
+          simp only [monC14bo]
+          have : ((isEmpty c && validate c false) || (validate c false && !validate c true)) = false := by
+            simp only [validate, isEmpty, kindValid]
+            cases h0 : (c.kind == 0) <;> cases h1 : decide (c.kind ≤ 2) <;> simp
+          simp [this]
+        · cases hs
+    | runs present fails runs =>
+      simp only [model, step] at hs
+      split at hs
+      · rename_i hg
+        simp only [Option.some.injEq] at hs; subst hs
+        refine ⟨s.cfg, ?_, rfl⟩
+        subst hg
+        cases present <;> simp [monC14bo, runsUnder]
+      · cases hs)
   exact hsim es s hr
 
 end UtilModel.Routine.Backoff
